@@ -178,13 +178,30 @@ func (s *c12Sock) findJoin(g [4]byte) int {
 	return -1
 }
 
-func (d *c12) hostJoined(g [4]byte, ifix int) bool {
+// hostJoined: the device accepts the frame iff some socket's membership of the
+// group on it admits the source (ip_check_mc: the device's aggregated filter).
+func (d *c12) hostJoined(g, src [4]byte, ifix int) bool {
 	for _, s := range d.socks {
 		if s.closed {
 			continue
 		}
 		for _, j := range s.joins {
-			if j.group == g && j.ifix == ifix {
+			if j.group != g || j.ifix != ifix {
+				continue
+			}
+			if j.source != ([4]byte{}) {
+				if j.source == src {
+					return true
+				}
+				continue
+			}
+			blocked := false
+			for _, b := range j.blocked {
+				if b == src {
+					blocked = true
+				}
+			}
+			if !blocked {
 				return true
 			}
 		}
@@ -208,7 +225,7 @@ func (d *c12) receives(s *c12Sock, src, dst [4]byte, port, ifix int) (bool, sim.
 	if !s.isPeer {
 		return false, none
 	}
-	if !d.hostJoined(dst, ifix) {
+	if !d.hostJoined(dst, src, ifix) {
 		return false, c12pMcastNo
 	}
 	for _, j := range s.joins {
@@ -412,9 +429,16 @@ func (d *c12) membershipOp(s *c12Sock) {
 		if ji >= 0 {
 			break
 		}
-		what = fmt.Sprintf("JoinSource(%s,%s)", ipStr(g), ipStr(src))
-		err = s.peer.JoinSource(multicast.IP(ipStr(g)), multicast.SourceIP(ipStr(src)))
-		apply = func() { s.joins = append(s.joins, c12Join{group: g, ifix: 2, source: src}) }
+		if w.Chance(1, 2) {
+			what = fmt.Sprintf("JoinSource(%s,%s)", ipStr(g), ipStr(src))
+			err = s.peer.JoinSource(multicast.IP(ipStr(g)), multicast.SourceIP(ipStr(src)))
+			apply = func() { s.joins = append(s.joins, c12Join{group: g, ifix: 2, source: src}) }
+		} else {
+			ifix := w.Pick(3, 2)
+			what = fmt.Sprintf("JoinSourceOn(%s,%s,%s)", ipStr(g), ipStr(src), d.ifaceName(ifix))
+			err = s.peer.JoinSourceOn(multicast.IP(ipStr(g)), multicast.SourceIP(ipStr(src)), multicast.InterfaceName(d.ifaceName(ifix)))
+			apply = func() { s.joins = append(s.joins, c12Join{group: g, ifix: ifix, source: src}) }
+		}
 	case 3: // leave
 		if ji < 0 {
 			break
@@ -431,8 +455,8 @@ func (d *c12) membershipOp(s *c12Sock) {
 			s.joins = append(s.joins[:ji], s.joins[ji+1:]...)
 			w.Stat(c12pLeft)
 		}
-	case 4: // block a source (needs an any-source membership on the default device)
-		if ji < 0 || s.joins[ji].source != ([4]byte{}) || s.joins[ji].ifix != 2 {
+	case 4: // block a source (needs an any-source membership; on whichever device it was joined)
+		if ji < 0 || s.joins[ji].source != ([4]byte{}) {
 			break
 		}
 		for _, b := range s.joins[ji].blocked {
